@@ -29,7 +29,8 @@ func genEvalCache(g *gen) {
 			g.emit("S broker %s %s 0 2 %d 1", hexName(c), hexName("t"), g.pick(100, 150))
 			g.emit("S broker %s %s 1 2 %d 1", hexName(c), hexName("t"), g.pick(100, 150))
 		}
-		g.emit("S cacheinit %d %08x %d", g.pick(0, 5, 10, 10), math.Float32bits(0), g.pick(0, 1000))
+		life := g.pick(0, 5, 10, 10)
+		g.emit("S cacheinit %d %08x %d", life, math.Float32bits(0), g.pick(0, 1000))
 		pickC := func() string {
 			if g.chance(1, 8) {
 				return hexName(g.pickS("nope", "C1", "A B"))
@@ -60,6 +61,28 @@ func genEvalCache(g *gen) {
 				g.emit("S cage 8")
 				g.emit("S cq %s %s %d", pickC(), pickG(), g.intn(2))
 			}
+		}
+		if i%5 == 2 && life > 0 {
+			// staleness is bounded by ONE lifetime counted from the evaluation, whichever views are asked for in between:
+			// full view at t0, problems-only view at 0.6 L, a change in storage, problems-only view again at 1.1 L
+			c, gr := hexName(clusters[g.intn(len(clusters))]), hexName(g.pickS("c", "g", "b c"))
+			order++
+			g.emit("S commit %s %s %s 0 %d %d %d", c, gr, hexName("t"), 40, order, -2000+order*500)
+			g.emit("S cage 30008")
+			g.emit("S cq %s %s 1", c, gr)
+			g.emit("S cage %d", life*600+8)
+			g.emit("S cq %s %s 0", c, gr)
+			if g.chance(1, 2) {
+				g.emit("S delgroup %s %s -", c, gr)
+			} else {
+				order++
+				g.emit("S commit %s %s %s 0 %d %d %d", c, gr, hexName("t"), 95, order, -2000+order*500)
+				g.emit("S broker %s %s 0 2 %d 1", c, hexName("t"), 5000+order)
+			}
+			g.emit("S cage %d", life*500+8)
+			g.emit("S cq %s %s 0", c, gr)
+			g.emit("S cage 8")
+			g.emit("S cq %s %s 1", c, gr)
 		}
 		if i%12 == 5 && i < 300 {
 			// a cache miss on an existing group while the storage subsystem is slow to accept the evaluator's fetch:
